@@ -20,7 +20,7 @@ import (
 func init() { families["c20"] = runC20; families["c20child"] = runC20Child }
 
 // Child: logs numbered lines through a synchronous logger and acknowledges every returned call on fd 3.
-// args: <kind file|rolling|console> <layout 0|1> <goroutines> <dir> <exitAfter (0 = run until killed)> <durationMs> [<maxAge hours>]   (the time zone comes from TZ)
+// args: <kind file|rolling|console> <layout 0|1> <goroutines> <dir> <exitAfter (0 = run until killed)> <durationMs> [<maxAge hours|-> <padding bytes> <bufferCap>]   (the time zone comes from TZ)
 func runC20Child(_ []string, _ *bufio.Writer, args []string) {
 	kind, lay, dir := args[0], args[1] == "1", args[3]
 	ng, _ := strconv.Atoi(args[2])
@@ -36,11 +36,16 @@ func runC20Child(_ []string, _ *bufio.Writer, args []string) {
 	case "rolling":
 		cfg["appender.a.type"], cfg["appender.a.fileDir"], cfg["appender.a.fileName"] = "RollingFile", dir, "a.log"
 		cfg["appender.a.rotation"], cfg["appender.a.maxAge"] = "1s", "24"
-		if len(args) > 6 {
+		if len(args) > 6 && args[6] != "-" {
 			cfg["appender.a.maxAge"] = args[6]
 		}
 	default:
 		cfg["appender.a.type"] = "Console"
+	}
+	pad := 0
+	if len(args) > 8 {
+		pad, _ = strconv.Atoi(args[7])
+		cfg["bufferCap"] = args[8]
 	}
 	if lay {
 		cfg["appender.a.layout.type"] = "JSONLayout"
@@ -60,7 +65,7 @@ func runC20Child(_ []string, _ *bufio.Writer, args []string) {
 			defer wg.Done()
 			for n := 0; time.Now().Before(end); n++ {
 				id := fmt.Sprintf("%d.%d", g, n)
-				log.Infof(ctx, tag, "<id:%s>", id)
+				log.Infof(ctx, tag, "<id:%s>%s|%d", id, strings.Repeat("#", pad+(g+n)%7), pad+(g+n)%7) // self-validating: the padding length is written after it
 				mu.Lock()
 				fmt.Fprintln(ack, id) // the call has returned: acknowledge it (unbuffered write on the pipe)
 				total++
@@ -78,7 +83,7 @@ func runC20Child(_ []string, _ *bufio.Writer, args []string) {
 	os.Exit(0)
 }
 
-// Case: "<kind> <layout> <goroutines> <mode kill|exit> <k acknowledgements before the crash> <durationMs> [<TZ> <maxAge hours>]"
+// Case: "<kind> <layout> <goroutines> <mode kill|exit> <k acknowledgements before the crash> <durationMs> [<TZ|-> <maxAge hours|-> [<padding bytes> <bufferCap>]]"
 // Observation: "acked=<n> complete=<n> missing=<ids>"
 func runC20(cases []string, out *bufio.Writer, _ []string) {
 	base, _ := os.MkdirTemp("/var/tmp", "verif-c20-")
@@ -103,10 +108,10 @@ func runC20(cases []string, out *bufio.Writer, _ []string) {
 			}
 			cargs := []string{"c20child", "-", os.DevNull, kind, f[1], f[2], dir, exitAfter, f[5]}
 			if len(f) > 7 {
-				cargs = append(cargs, f[7])
+				cargs = append(cargs, f[7:]...)
 			}
 			cmd := exec.Command(self, cargs...)
-			if len(f) > 6 { // the retention scan started by every rotation runs in the process's time zone
+			if len(f) > 6 && f[6] != "-" { // the retention scan started by every rotation runs in the process's time zone
 				cmd.Env = append(os.Environ(), "TZ="+f[6])
 			}
 			pr, pw, _ := os.Pipe()
@@ -145,7 +150,7 @@ func runC20(cases []string, out *bufio.Writer, _ []string) {
 			complete := map[string]bool{}
 			for _, l := range bytes.SplitAfter(data, []byte("\n")) {
 				if bytes.HasSuffix(l, []byte("\n")) {
-					if id := idOf(l); id != "?" {
+					if id := idOf(l); id != "?" && c20LineWhole(l) {
 						complete[id] = true
 					}
 				}
@@ -171,4 +176,23 @@ func runC20(cases []string, out *bufio.Writer, _ []string) {
 	for _, r := range results {
 		fmt.Fprintln(out, r)
 	}
+}
+
+// c20LineWhole checks the self-validating payload "<id:..>####|<count>": the padding is all '#' and as long as announced.
+func c20LineWhole(l []byte) bool {
+	i := bytes.Index(l, []byte("<id:"))
+	j := bytes.IndexByte(l[i:], '>')
+	rest := l[i+j+1:]
+	k := bytes.IndexByte(rest, '|')
+	if k < 0 || len(bytes.Trim(rest[:k], "#")) != 0 {
+		return false
+	}
+	n, d := 0, 0
+	for _, c := range rest[k+1:] {
+		if c < '0' || c > '9' {
+			break
+		}
+		n, d = n*10+int(c-'0'), d+1
+	}
+	return d > 0 && n == k
 }
